@@ -16,7 +16,7 @@ def Env.current (codes : List Int) : Env :=
   { errorCodes := codes,
     time := { tdExact := true, dtExact := true, dtMillis := true },
     skipUnknownTags := true,
-    nullableTaggedReader := false }
+    nullableTaggedReader := true }
 
 /-- the record-batch code as it is now -/
 def RecCfg.current : RecCfg := RecCfg.repaired
